@@ -325,12 +325,17 @@ func (l *log) GetByTime(start time.Time) (message.Message, error) {
 	defer l.readersMu.RUnlock()
 
 	readers := l.readers
+	found, exact := message.Invalid, false
 	for i := len(readers) - 1; i >= 0; i-- {
 		rdr := readers[i]
 
 		switch msg, err := rdr.GetByTime(ts, tctx); err {
 		case nil:
-			return msg, nil
+			if i == 0 || msg.Time.UnixMicro() != ts {
+				return msg, nil
+			}
+			// exact match, but the segment before can end with messages of that same time
+			found, exact = msg, true
 		case index.ErrTimeIndexEmpty:
 			// only the head can be empty, the segment before it is the last one with messages
 			if i == 0 {
@@ -343,6 +348,9 @@ func (l *log) GetByTime(start time.Time) (message.Message, error) {
 				return rdr.Get(message.OffsetOldest)
 			}
 		case index.ErrTimeAfterEnd:
+			if exact {
+				return found, nil
+			}
 			// time is between end of this and begin next
 			if i < len(readers)-1 {
 				nextRdr := readers[i+1]
